@@ -54,4 +54,12 @@ def main():
 
 
 if __name__ == '__main__':
-    sys.exit(main())
+    try:
+        rc = main()
+    except SystemExit:
+        raise
+    except BaseException:      # a failure of the analyser itself (even at import time) is never reported as a violation
+        traceback.print_exc()
+        print('ANALYSIS-ERROR internal error in the analyser')
+        rc = 2
+    sys.exit(rc)
